@@ -80,6 +80,13 @@ def generate(tier, seed, work, stats):
                 cases.append(dict(kind="text", toks=ts, style="minimal" if i % 2 else "spaced", alph=alph, L=3))
             if len(ts) <= 3 and ts:
                 wf_pool.append((ts, alph))
+    # well-formed texts rendered from ASTs, with minimal / full / redundant (1-3 extra pairs) parentheses
+    states = core.tlc_dump("RegexASTGen", "INIT InitA\nNEXT NextA\nCHECK_DEADLOCK FALSE\n", work, stats=stats, workers=4, name="RegexASTGen")
+    seqs = sorted(tlaparse.to_json(st["rs"]) for st in states)
+    for i, ts in enumerate(seqs):
+        if tier == "quick" and (i + seed) % 3:
+            continue
+        cases.append(dict(kind="text", toks=ts, style="spaced" if i % 2 else "minimal", alph=["a", "b", "zz"], L=3))
     for _ in range(600 if tier == "quick" else 6000):
         (a, alph), (b, _) = rnd.choice(wf_pool), rnd.choice(wf_pool)
         cases.append(dict(kind="comb", toksA=a, toksB=b, alph=sorted(set(alph) | set(_)), L=3))
